@@ -599,6 +599,23 @@ def self_rebuilds(F, res):
                         continue
                     n += 1
                     key = "%s|%s::%s.%s" % (f["path"], st.split("::")[-1], var, fld)
+                    if srcs != {fld} and fld in srcs:
+                        # several fields went through one helper that hands them back as a tuple (`map_pair(&self.a, &self.b,
+                        # f)?`): followed again with the helper inlined and the tuple's components kept apart
+                        from ..common import with_helpers
+                        try:
+                            fi = with_helpers(F, f["path"])
+                        except Exception:
+                            fi = None
+                        if fi is not None and fi.get("inlined"):
+                            dfi = mir.DefUse(fi)
+                            for _b, _i, s2 in mir.stmts(fi):
+                                r2 = s2["rv"]
+                                if r2["k"] == "agg" and r2.get("adt") == st and r2.get("variant") == var and not fi["blocks"][_b].get("inl") and s2["line"] == s["line"]:
+                                    got = e9.deep_sources_fs(fi, dfi, r2["ops"][r2["fields"].index(fld)])
+                                    got.discard("<self>")
+                                    if got:
+                                        srcs = got
                     if srcs == {fld}:
                         res.add([ok("ATTRIB", key, where(f, s["line"]), "from self.%s" % fld)])
                     else:
